@@ -3,6 +3,7 @@
 package checks
 
 import (
+	"strings"
 	"sync"
 	"time"
 
@@ -68,15 +69,22 @@ func installYields(seed uint64, p float64, kinds ...string) func() {
 		if len(want) > 0 && !want[kind] {
 			return
 		}
+		// (update IDs are random per process: the decision is keyed by node and neighbour only)
+		ck := key
+		if kind == "route.seen" || kind == "route.relay" {
+			if i := strings.LastIndex(key, "|"); i > 0 {
+				ck = key[:i]
+			}
+		}
 		mu.Lock()
-		visits[kind+"\x00"+key]++
-		n := visits[kind+"\x00"+key]
+		visits[kind+"\x00"+ck]++
+		n := visits[kind+"\x00"+ck]
 		mu.Unlock()
-		h := simnet.H(seed, "yield", kind, key, n)
+		h := simnet.H(seed, "yield", kind, ck, n)
 		if simnet.Unit(h) >= p {
 			return
 		}
-		d := time.Duration(1+simnet.H(seed, "yieldd", kind, key, n)%3000) * time.Microsecond
+		d := time.Duration(1+simnet.H(seed, "yieldd", kind, ck, n)%3000) * time.Microsecond
 		time.Sleep(d)
 	})
 	return func() { verifhook.SetYieldHandler(nil) }
